@@ -27,6 +27,7 @@ type Case struct {
 	GRL      string          `json:"grl"`
 	RulesJS  json.RawMessage `json:"rules"`   // program AST for the monitor
 	Counted  json.RawMessage `json:"counted"` // the one counted method atom of the program, or {"k":"none"}
+	Other    *World          `json:"other"`   // facts an earlier instance of the same library is run on (variant second)
 	Removed  []string        `json:"removed"` // rules removed from the library before instantiation
 	Parts    []string        `json:"parts"`   // the same rules split over several resources (variant multi)
 	Variant  string          `json:"variant"` // fresh | reloaded | reloaded2 | second | multi
@@ -183,6 +184,9 @@ func BuildInstance(c *Case) (*ast.KnowledgeBase, error) {
 	if c.Variant == "second" {
 		// a first instance is created and used, the second one must be independent of it
 		w := c.Calls[0].World.Clone()
+		if c.Other != nil {
+			w = c.Other.Clone()
+		}
 		eng := &engine.GruleEngine{MaxCycle: 3}
 		_ = eng.Execute(w.DataContext(), kb)
 		for _, r := range kb.RuleEntries {
@@ -201,7 +205,7 @@ func BuildInstance(c *Case) (*ast.KnowledgeBase, error) {
 func RunCase(c *Case, em *Emitter, watchdog time.Duration) error {
 	kb, err := BuildInstance(c)
 	if err != nil {
-		em.Emit(J{"ev": "setup-failed", "id": c.ID, "what": err.Error(), "grl": c.GRL, "variant": c.Variant})
+		em.Emit(J{"ev": "setup-failed", "id": c.ID * 8, "what": err.Error(), "grl": c.GRL, "variant": c.Variant})
 		return err
 	}
 	for ci := range c.Calls {
@@ -233,7 +237,7 @@ func runCall(c *Case, ci int, kb *ast.KnowledgeBase, em *Emitter, watchdog time.
 	}
 	w.F.hook = func(ev J) { em.Emit(ev) }
 	w.F.gate = gate
-	begin := J{"ev": "begin", "id": c.ID, "call": ci, "mode": cc.Mode, "rules": c.RulesJS, "facts": w.Snapshot(),
+	begin := J{"ev": "begin", "id": c.ID*8 + ci, "call": ci, "mode": cc.Mode, "rules": c.RulesJS, "facts": w.Snapshot(),
 		"max": cc.Max, "flag": cc.Flag, "variant": c.Variant, "profile": c.Profile, "counted": c.Counted}
 	em.Emit(begin)
 	if cc.CancelAt == 0 && !cc.Deadline {
